@@ -221,7 +221,7 @@ def run(ctx, col: Collector):
                 else:
                     col.bad('C08-raise', cons, f'{fi.qualname} ({fi.file}:{r.lineno}) raises {cls.split(":")[-1]} on the parse/render path: neither a parse error, '
                             f'a pydbml.exceptions class nor one of the two documented built-in errors - it would escape as an internal error', node=r, file=fi.file)
-        col.floor('C08-raise', 'raise statements on the closure', n, 40)
+        col.floor('C08-raise', 'raise statements on the closure', n, 25)
         # the listed exceptions still exist (a vanished entry must be noticed)
         for (fid, cls), why in RAISE_OK.items():
             fi = idx.funcs.get(fid)
